@@ -22,6 +22,7 @@ type grpStep struct {
 	Hold  bool // the function holds (waits for a release token) and ignores its context
 	NoQ   bool // no quiescence point after this step: the next step races with it
 	Async bool // the registration is made from its own goroutine (it can be overtaken in the middle)
+	Y     int  // after a step without quiescence point the driver gives up the processor this many times
 }
 
 func genGroup(rng *rand.Rand) []grpStep {
@@ -60,7 +61,7 @@ func genGroup(rng *rand.Rand) []grpStep {
 				for j := 0; j < 2 && nk < 4; j++ {
 					nk++
 					kinds[nk] = "do"
-					out = append(out, grpStep{A: "reg", K: nk, Kind: "do", Iv: 10, Hold: false, NoQ: true, Async: true})
+					out = append(out, grpStep{A: "reg", K: nk, Kind: "do", Iv: 10, Hold: false, NoQ: true, Async: true, Y: rng.Intn(4)})
 				}
 				out = append(out, grpStep{A: []string{"cancelparent", "stop"}[rng.Intn(2)], NoQ: true}, grpStep{A: "stopwait"})
 			} else if nk < 4 && rng.Intn(3) > 0 {
@@ -158,6 +159,9 @@ func runGroup(t *testing.T, steps []grpStep) ([]Ev, bool, string) {
 			}
 			if !st.NoQ {
 				r.Quiesce()
+			}
+			for y := 0; y < st.Y; y++ {
+				runtime.Gosched()
 			}
 		}
 		// epilogue: stop, release everything that holds
